@@ -17,7 +17,7 @@ func newExec(prog *ssa.Program, specs *Specs, fn *ssa.Function, con *Contract, t
 	}
 	return &Exec{ld: theLoaded, prog: prog, specs: specs, fn: fn, key: key, con: con, tparam: tp,
 		obls: map[string]*Obligation{}, typeIDs: map[string]uint64{}, loops: map[*ssa.Function]*loopInfo{},
-		ordinal: map[ssa.Instruction]int{}, globals: map[*ssa.Global]uint64{}}
+		ordinal: map[ssa.Instruction]int{}, globals: map[*ssa.Global]uint64{}, defBody: map[string]string{}, valWidth: map[string]int{}, mulBody: map[string]string{}}
 }
 
 func (x *Exec) entryState() (*State, []V) {
@@ -34,13 +34,34 @@ func (x *Exec) entryState() (*State, []V) {
 	fn := x.fn
 	var args []V
 	for i, p := range fn.Params {
-		isRecv := i == 0 && fn.Signature.Recv() != nil
+		isRecv := i == 0 && fn.Signature.Recv() != nil && !(x.con != nil && x.con.Mutable)
 		name := p.Name()
 		if name == "" || name == "_" {
 			name = fmt.Sprintf("p%d", i)
 		}
 		v := st.symbolic(p.Type(), name, provForParam(name, p.Type(), isRecv), true)
 		args = append(args, v)
+	}
+	// separate regions (Go type safety: distinct objects do not overlap)
+	if x.con != nil {
+		for _, sp := range x.con.Separate {
+			for i, p := range fn.Params {
+				if p.Name() != sp.Param {
+					continue
+				}
+				addr, err := sepHeaderAddr(args[i], p.Type(), sp.Field)
+				if err != nil {
+					unsup("separate %s.%s: %v", sp.Param, sp.Field, err)
+				}
+				st.x.fresh++
+				space := fmt.Sprintf("H:sep%d", st.x.fresh)
+				an := fmt.Sprintf("H_sep_%d", st.x.fresh)
+				st.decl(an, sortMem)
+				st.mem[space] = &MemVer{kind: mBase, term: an}
+				st.shadow["H@"+addr] = &Prov{Space: space, Region: "sep:" + sp.Param + "." + sp.Field}
+				x.noteAssumption(fmt.Sprintf("%s: the array behind %s.%s is an object of its own, overlapping no other object (Go type safety; precondition 'separate')", x.key, sp.Param, sp.Field))
+			}
+		}
 	}
 	// input bytes for counterexample extraction
 	for i := range fn.Params {
@@ -58,6 +79,30 @@ func (x *Exec) entryState() (*State, []V) {
 		}
 	}
 	return st, args
+}
+
+// sepHeaderAddr is the address of the slice header ptr.field.
+func sepHeaderAddr(ptr V, pt types.Type, field string) (string, error) {
+	if ptr.K != KPtr {
+		return "", fmt.Errorf("not a pointer")
+	}
+	p, ok := pt.Underlying().(*types.Pointer)
+	if !ok {
+		return "", fmt.Errorf("%s is not a pointer type", pt)
+	}
+	stt, ok := p.Elem().Underlying().(*types.Struct)
+	if !ok {
+		return "", fmt.Errorf("%s is not a pointer to a struct", pt)
+	}
+	for i := 0; i < stt.NumFields(); i++ {
+		if stt.Field(i).Name() == field {
+			if _, ok := stt.Field(i).Type().Underlying().(*types.Slice); !ok {
+				return "", fmt.Errorf("field %s is not a slice", field)
+			}
+			return bvadd(ptr.T, bvLit(uint64(fieldOffset(stt, i)), 64)), nil
+		}
+	}
+	return "", fmt.Errorf("no field %s", field)
 }
 
 func (x *Exec) contractEnv(st *State, args []V, entryMem map[string]*MemVer) *CEnv {
@@ -120,14 +165,6 @@ func (x *Exec) analyze() (err error) {
 		}
 		st.assume(t)
 	}
-	for i, rq := range con.Requires {
-		t, e := env.evalBool(rq.Expr)
-		if e != nil {
-			x.genFail(fmt.Sprintf("%s#requires%d", x.key, i+1), "requires", con.Safety, "", e.Error())
-			continue
-		}
-		st.assume(t)
-	}
 	// Skolemise the quantified variables of this function's own post-conditions now and
 	// harvest the arguments of sequence constructors as instantiation terms for the
 	// quantified post-conditions of callees (engine-side instantiation keeps queries quantifier free).
@@ -145,6 +182,14 @@ func (x *Exec) analyze() (err error) {
 			}
 		}
 		x.harvestClause(henv, en.Expr)
+	}
+	// preconditions are assumed after the harvest, so that quantified ones are instantiated at the
+	// witnesses of this function's own post-conditions (and again later at every new witness)
+	for i, rq := range con.Requires {
+		if e := st.assumeClause(env, rq.Expr); e != nil {
+			x.genFail(fmt.Sprintf("%s#requires%d", x.key, i+1), "requires", con.Safety, "", e.Error())
+			continue
+		}
 	}
 	x.cover(st, x.key+"#cover.pre", "cover", con.Safety, x.posOf(x.fn.Pos()), "precondition and type invariants are satisfiable")
 	for _, sn := range con.Stale {
@@ -179,6 +224,14 @@ func (x *Exec) analyze() (err error) {
 		}
 		env.prove = true
 		env.skolems = x.preSk
+		// the witnesses chosen at entry for this function's quantified post-conditions join the pool
+		// only now: every quantified assumption made on the path (preconditions, callee post-conditions,
+		// loop invariants) is instantiated at them here, and no proof along the way carried them
+		for qe, sk := range x.preSk {
+			if sk.K == KBV && qe != nil {
+				o.st.addPool(sk.W, sk.T)
+			}
+		}
 		for i, en := range con.Ensures {
 			name := fmt.Sprintf("%s#ensures%d", x.key, i+1)
 			s2 := o.st
